@@ -36,7 +36,7 @@ def check(repo, col, tier):
     _channels(repo, col)
     # the merged level schedule keeps every level of every cell (shared with C01)
     from . import c01_solver
-    col.rule("R-C12-merge", "merged level schedule contains every level of every cell", 2)
+    col.rule("R-C12-merge", "merged level schedule contains every level of every cell", 1)
     c01_solver._merge(repo, col, "R-C12-merge")
 
 
@@ -128,16 +128,37 @@ def _offsets(repo, col):
     ok = nb is not None and unparse(nb.value) == "jnp.asarray([len(cell._par_inds) for cell in cells])"
     col.check(ok, R, fi, "branch points per cell = number of distinct parent branches of that cell", "",
               f"nbranchpoints is {unparse(nb.value) if nb else None}", node=nb or fi.node)
-    # merge_cells offsets
+    from . import c01_solver as _c01s
+    _c01s.consecutive_rank(repo, col, R)
+    # merge_cells offsets: every level table of cell i is shifted by [branch offset of i, branch-point offset of i]
     mc = repo.func("jaxley/utils/cell_utils.py", "merge_cells")
-    add = None
-    for n in ast.walk(mc.node):
-        if isinstance(n, ast.BinOp) and isinstance(n.op, ast.Add) and "cumsum_num_branchpoints" in unparse(n):
-            add = n
-    ok = add is not None and unparse(add).replace(" ", "") == "p_in_level+np.asarray([cumsum_num_branches[i],cumsum_num_branchpoints[i]])"
-    col.check(ok, R, mc, "level tables: (branch, branch point) columns shifted by (branch offset, branch-point offset) of cell i",
-              "p_in_level + [cumsum_num_branches[i], cumsum_num_branchpoints[i]]", f"offset expression is {unparse(add) if add else None}",
-              node=add or mc.node)
+    exm = idx.expander(repo, mc)
+    terms = list(exm.returns)
+    for s_ in exm.stores:
+        terms += [t_ for t_ in (s_.value,) if t_ is not None]
+    pair = None
+    for t_ in terms:
+        for x in t_.walk():
+            if x.op == "binop" and x.name == "+":
+                for side in x.args:
+                    lst = T.find(side, lambda y: y.op == "list" and len(y.args) == 2 and all(z.op == "sub" for z in y.args))
+                    if lst is not None and side.op == "mcall" and side.name in ("asarray", "array"):
+                        pair = pair or (x, lst)
+    if pair is None:
+        col.unk(R, mc, "level tables: offsets of cell i", "offset expression not found", node=mc.node)
+    else:
+        x, lst = pair
+        a0, a1 = lst.args
+        names = [a0.args[0].name if a0.args[0].op == "param" else None, a1.args[0].name if a1.args[0].op == "param" else None]
+        same_i = a0.args[1].key() == a1.args[1].key()
+        from_enum = T.find(a0.args[1], lambda y: y.op == "item" and y.name == 0 and T.find(y, lambda z: z.op == "call" and z.name == "enumerate") is not None) is not None \
+            or (a0.args[1].op == "item" and a0.args[1].name == 0)
+        pm = mc.params
+        ok = names == [pm[0], pm[1]] and same_i and from_enum
+        col.check(ok, R, mc, "level tables: (branch, branch point) columns shifted by (branch offset, branch-point offset) of cell i",
+                  "table + [cumsum_num_branches[i], cumsum_num_branchpoints[i]]",
+                  f"offset expression is {x.short(120)}: column 0 must be shifted by {pm[0]}[i] and column 1 by {pm[1]}[i] with the same cell index i",
+                  node=x.node or mc.node)
     # call sites hand the offsets over in that order
     nj = repo.method("Network", "_init_morph_jaxley_spsolve")
     exn = idx.expander(repo, nj)
